@@ -86,7 +86,17 @@ pub fn long_docs() -> Vec<Doc> {
     let mut bad = d.clone();
     let k = bad.len() * 2 / 3;
     bad[k] = b'?';
-    vec![Doc::new("^btor2:long", d), Doc::new("^btor2:long-corrupted", bad)]
+    // very long comment lines, trailing comments and symbols, each followed by more
+    let mut c1 = b"; ".to_vec();
+    c1.extend(std::iter::repeat(b'x').take(100_000));
+    c1.extend_from_slice(b"\n1 sort bitvec 8\n2 input 1 a\n");
+    let mut c2 = b"1 sort bitvec 8 ; ".to_vec();
+    c2.extend(std::iter::repeat(b'y').take(100_000));
+    c2.extend_from_slice(b"\n2 input 1 a\n; end\n");
+    let mut c3 = b"1 sort bitvec 8\n2 input 1 ".to_vec();
+    c3.extend(std::iter::repeat(b'z').take(100_000));
+    c3.extend_from_slice(b"\n3 not 1 2\n");
+    vec![Doc::new("^btor2:long", d), Doc::new("^btor2:long-corrupted", bad), Doc::new("^btor2:long-comment-line", c1), Doc::new("^btor2:long-trailing-comment", c2), Doc::new("^btor2:long-symbol", c3)]
 }
 
 pub struct Inputs {
